@@ -66,7 +66,7 @@ def run(ctx):
     first, last = ref_oa(datetime.date(1900, 1, 1)), ref_oa(datetime.date(9999, 12, 31))
     assert first == 2
     ctx.rule = ("quick: first/last day and the days around 28 Feb/29 Feb/1 Mar, 30 Jun, 31 Dec of every year 1900-9999, a stride "
-                "sample of all days, all 86400 seconds of sample days, day arithmetic with offsets from a stride set; thorough: every "
+                "sample of all days, all 86400 seconds of sample days, day arithmetic with offsets from a stride set on midnight dates and on dates with a time of day; thorough: every "
                 "calendar day 1900-01-01..9999-12-31; non-trivial = a day adjacent to a month/year boundary or a time != 00:00:00")
     # ---------------- conversions on the implementation vs datetime.date ordinals
     days = boundary_days()
@@ -119,6 +119,25 @@ def run(ctx):
     env = it.environment
     offsets = [0, 1, -1, 2, 27, 28, 29, 30, 31, 59, 60, 365, 366, -365, -366, 1461, 36524, 36525, 146097, -146097, 1000000]
     picks = rng.sample(days, 300 if ctx.thorough else 60) + [first, first + 1, last, last - 1]
+    # ... and the same laws for dates with a time of day (to the second)
+    for n in rng.sample(days, 400 if ctx.thorough else 80) + [first, last - 1]:
+        d = ref_date(n)
+        h, mi, sec = rng.choice([(6, 3, 53), (23, 59, 59), (0, 0, 1), (12, 0, 0), (rng.randrange(24), rng.randrange(60), rng.randrange(60))])
+        x = datetime.datetime(d.year, d.month, d.day, h, mi, sec)
+        env.put("d", V.ValueDate(x))
+        for k in rng.sample(offsets, 6):
+            if not (first <= n + k <= last - 1):
+                continue
+            env.put("k", V.ValueInt(k))
+            t = x + datetime.timedelta(days=k)
+            for src, want in [("(d + k) - d", str(k)), ("d - (d + k)", str(-k)), ("(d + k) - k == d", "TRUE"), ("(d - k) + k == d", "TRUE") if first <= n - k <= last - 1 else ("1", "1"),
+                              ("string(d + k)", "'" + t.strftime("%Y%m%d%H%M%S") + "'") if t.year >= 1000 else ("1", "1"),
+                              ("int(d + k) == int(d) + k", "TRUE"), ("date(decimal(d)) == d", "TRUE"), ("(d + k) - (d + k) ", "0")]:
+                out = common.run_program(it, src)
+                ctx.seen(("arith-time", n, (h, mi, sec), k, src), nontrivial=True)
+                if out[:2] != ('val', want):
+                    ctx.violation("oracle", f"`{src}` with d={x.isoformat()}, k={k} gives {out[:3]}, expected {want}",
+                                  {"op": "program", "src": src, "d": x.isoformat(), "k": k})
     for n in picks:
         d = ref_date(n)
         dv = V.ValueDate(datetime.datetime(d.year, d.month, d.day))
